@@ -111,6 +111,7 @@ Plan generate(uint64_t seed, uint64_t run, bool thorough) {
     { double u = r.unit(); p.set("kind", u < 0.7 ? K_MPI_AMG : u < 0.85 ? K_SDD : K_BLOCK, 0); }
     p.set("local_relax_only", r.chance(0.4) ? 1 : 0, 0); p.set("local_coarsening", r.range(0, 2), 0); p.set("ndv", r.range(1, 2), 1);      // (no energy-minimising coarsening inside subdomains: its degenerate tiny levels are recorded under C02)
     draw_schedule(r, p.sched, (int)p.get("R"));
+    draw_vary_params(r, p, 0.3);
     return p;
 }
 
@@ -150,6 +151,20 @@ Result execute(const Plan &p) {
     //  mpi::amg has no other stop than coarse_enough / max_levels - bound the depth so that such a world costs seconds, not minutes)
     if (nscols > 0) prm.put("precond.max_levels", 2 + (p.get("vseed") & 1));
     prm.put("solver.type", solver_names[solver]); prm.put("solver.maxiter", 200);
+    // seeded variation of the remaining parameters (cycle shape, coarsest-level treatment, component parameters); the convergence
+    // promise is for the defaults, so it is not judged in these worlds (termination, rank agreement, truthfulness, structure are)
+    std::string varied;
+    if (p.get("vp", 0) && kind == K_MPI_AMG && nscols == 0) {
+        sim::rng vr((uint64_t)p.get("vp_seed", 0), "c12vary");
+        if (vr.chance(0.4)) { prm.put("precond.ncycle", 2); prm.put("precond.max_levels", 4); varied += "ncycle=2 max_levels=4 "; }
+        if (vr.chance(0.3)) { prm.put("precond.pre_cycles", 2); varied += "pre_cycles=2 "; }
+        if (vr.chance(0.3)) { prm.put("precond.npost", 3 - p.get("npre")); varied += "npost!=npre "; }
+        if (vr.chance(0.25)) { prm.put("precond.direct_coarse", false); varied += "direct_coarse=false "; }
+        if (vr.chance(0.25)) { long ml = vr.range(1, 3); prm.put("precond.max_levels", ml); varied += fmt("max_levels=%ld ", ml); }
+        if (vr.chance(0.3)) { prm.put("precond.allow_rebuild", true); varied += "allow_rebuild "; }
+        varied += apply_vary_params(p, prm, "precond.coarsening.", coarsening_names[coarsening], "precond.relax.", relax_names[relax], "solver.", solver_names[solver], false);
+    }
+    const double eps_strong_used = prm.get("precond.coarsening.aggr.eps_strong", 0.08);      // a double parameter in the distributed PMIS
     std::vector<double> x(n, 0.0); std::vector<double> iters(R, -1), resid(R, -1);
     bool any_empty = false; for (int r = 0; r < R; ++r) if (rp[r+1] == rp[r]) any_empty = true;
 
@@ -210,7 +225,11 @@ Result execute(const Plan &p) {
     if (out.sched.status == sim::ST_DEADLOCK) { std::string ex; for (int r = 0; r < R; ++r) if (!out.rank_exception[r].empty()) ex += fmt("rank %d threw: %s; ", r, out.rank_exception[r].c_str()); res.fail(sig("all-ranks-terminate", "deadlock", out.sched.blocked + ex)); }
     else if (out.sched.status) res.fail(sig("all-ranks-terminate", "tick-budget", out.sched.blocked));
     else {
-        for (int r = 0; r < R; ++r) if (!out.rank_exception[r].empty()) { threw = true; res.fail(sig("no-exception", "rank-threw", fmt("rank %d: %s", r, out.rank_exception[r].c_str()))); break; }
+        bool all_same_exc = true; for (int r = 0; r < R; ++r) if (out.rank_exception[r].empty() || out.rank_exception[r] != out.rank_exception[0]) all_same_exc = false;
+        // (varied parameters may be unusable for the system at hand - IDR(s) with s > n, ...: an exception raised identically on every
+        //  rank is a truthfully reported failure there; with default parameters every exception counts)
+        if (all_same_exc && !varied.empty()) { threw = true; res.counts["consistent_exception_in_varied_world"]++; }
+        else for (int r = 0; r < R; ++r) if (!out.rank_exception[r].empty()) { threw = true; res.fail(sig("no-exception", "rank-threw", fmt("rank %d: %s", r, out.rank_exception[r].c_str()))); break; }
         if (!threw) {
             for (int r = 1; r < R; ++r) if (!bits_equal(iters[r], iters[0]) || !bits_equal(resid[r], resid[0])) { res.fail(sig("rank-consistent", "same-iterations-and-residual", fmt("rank 0: %.0f iterations, residual %.17g; rank %d: %.0f, %.17g", iters[0], resid[0], r, iters[r], resid[r]))); break; }
             long double rr = 0, ff = 0, ainf = 0, xinf = 0, finf = 0;
@@ -248,7 +267,7 @@ Result execute(const Plan &p) {
                 // aggregates: every unknown with a strong neighbour lies in an aggregate (non-empty row of P); for plain aggregation
                 // exactly one unit entry per such row; no empty aggregate (every column of P non-empty)
                 std::vector<double> dia(nA, 0.0); for (Entries::const_iterator a = L.A.begin(); a != L.A.end(); ++a) if (a->first.first == a->first.second) dia[a->first.first] = a->second;
-                std::vector<char> strong(nA, 0); const double eps2 = 0.08 * 0.08;
+                std::vector<char> strong(nA, 0); const double eps2 = eps_strong_used * eps_strong_used;
                 for (Entries::const_iterator a = L.A.begin(); a != L.A.end(); ++a) { long i = a->first.first, c = a->first.second; if (i != c && c < nA && eps2 * dia[i] * dia[c] < a->second * a->second) strong[i] = 1; }
                 std::vector<int> rowcnt(nA, 0), colcnt(nC, 0); bool unit = true;
                 for (Entries::const_iterator q = L.P.begin(); q != L.P.end(); ++q) { rowcnt[q->first.first]++; if (q->first.second < nC) colcnt[q->first.second]++; if (q->second != 1.0) unit = false; }
@@ -280,7 +299,7 @@ Result execute(const Plan &p) {
             }
             // (worlds with near-null-space vectors run on a hierarchy truncated by max_levels: no convergence promise there)
             // (subdomain deflation / block preconditioner: promised only with a multigrid inside the subdomains, a bare smoother is no solver)
-            if (finite && nscols == 0 && !(kind != K_MPI_AMG && p.get("local_relax_only")) && (solver == 7 ? !(resid[0] < 1.0) : !(resid[0] < tol))) res.fail(sig("converges-on-spd", solver == 7 ? "richardson-converges" : "within-200-iterations", fmt("%.0f iterations, residual %.3g (n=%ld, %d ranks)", iters[0], resid[0], n, R)));
+            if (finite && nscols == 0 && varied.empty() && !(kind != K_MPI_AMG && p.get("local_relax_only")) && (solver == 7 ? !(resid[0] < 1.0) : !(resid[0] < tol))) res.fail(sig("converges-on-spd", solver == 7 ? "richardson-converges" : "within-200-iterations", fmt("%.0f iterations, residual %.3g (n=%ld, %d ranks)", iters[0], resid[0], n, R)));
         }
     }
     res.nontrivial = R >= 2 && out.stats.messages >= 1;
@@ -291,7 +310,7 @@ Result execute(const Plan &p) {
     js::Value s = js::Value::object();
     s.set("kind", kind_names[kind]); s.set("ranks", R); s.set("family", gen::family_name((int)p.get("family"))); s.set("n", n); s.set("coarsening", coarsening_names[coarsening]); s.set("relax", relax_names[relax]); s.set("solver", solver_names[solver]);
     js::Value jp = js::Value::array(); for (int r = 0; r <= R; ++r) jp.push(rp[r]); s.set("row_partition", jp);
-    s.set("coarse_enough", p.get("coarse_enough")); s.set("nullspace_vectors", nscols); s.set("repartition", (long)repart_on); s.set("late_send_read", (long)mc.late_send_read); s.set("recv_poison", (long)mc.recv_poison); s.set("rendezvous", (long)mc.rendezvous);
+    s.set("coarse_enough", p.get("coarse_enough")); if (!varied.empty()) { s.set("varied_parameters", varied); res.counts["varied_parameter_worlds"]++; } s.set("nullspace_vectors", nscols); s.set("repartition", (long)repart_on); s.set("late_send_read", (long)mc.late_send_read); s.set("recv_poison", (long)mc.recv_poison); s.set("rendezvous", (long)mc.rendezvous);
     s.set("strategy", sim::strategy_name(p.sched.strategy)); s.set("messages", (unsigned long long)out.stats.messages); s.set("collectives", (unsigned long long)out.stats.collectives); s.set("iters", iters[0]); s.set("resid", resid[0]);
     res.sample = s;
     return res;
